@@ -33,6 +33,7 @@ func c06Alphabet() []c06Sym {
 		{"E", ``, "nothing"},
 		{"W", " \t  ", "nothing"},
 		{"T", `this is not json: restarting mongod [initandlisten] pid=1`, "nothing"},
+		{"L", `2024-05-01T10:00:00.123+0000 I NETWORK  [conn12] end connection 127.0.0.1:51234 (3 connections now open)`, "nothing"},
 		{"U", `{"t":{"$date":"2024-05-01T10:00:03.000+00:00"},"s":"I","c":"COMMAND","msg":"Slow query","attr":{"command":{"find":"c","filter":{"a":"tru`, "open"},
 		{"G", `{"t":{"$date":"2024-05-01T10:00:04.000+00:00"},"s":"I","c":"STORAGE","id":1,"ctx":"x","msg":"m","attr":{}} trailing garbage`, "open"},
 	}
@@ -339,7 +340,7 @@ func trunc(s string, n int) string {
 func init() {
 	register(&PropDef{
 		ID: "C06", Level: "model_checking",
-		Rule: "all sequences of length <=4 (thorough 5) over the 8-symbol line alphabet {command line A, command line B, other-component line, empty, whitespace-only, non-JSON text, truncated object, object+garbage} x {LF, CRLF} x {final newline, none} x 3 in-process channels (reader, plain file, gzip file) x 4 progress-bar modes x 2 flag sets; all sequences of length <=2 (thorough 3) through the real CLI x 3 input x 2 output channels x EOL x final newline, each twice. States = sequence prefixes, transitions = appended lines; oracle: out(seq) = concatenation of the one-line outputs, one-line outputs checked per class. distinct = (flag set, sequence)",
+		Rule: "all sequences of length <=4 (thorough 5) over the 9-symbol line alphabet {command line A, command line B, other-component line, empty, whitespace-only, non-JSON text, legacy text-format line, truncated object, object+garbage} x {LF, CRLF} x {final newline, none} x 3 in-process channels (reader, plain file, gzip file) x 4 progress-bar modes x 2 flag sets; all sequences of length <=2 (thorough 3) through the real CLI x 3 input x 2 output channels x EOL x final newline, each twice. States = sequence prefixes, transitions = appended lines; oracle: out(seq) = concatenation of the one-line outputs, one-line outputs checked per class. distinct = (flag set, sequence)",
 		Assumptions: []string{"truncated objects and objects followed by garbage are borderline members of 'JSON object': their one-line output is taken as it is", "a line that panics is C07's concern and is left out of the alphabet (noted)"},
 		Run:         c06Run,
 	})
